@@ -12,6 +12,7 @@
 -/
 import PyTough.Model.ListingHistory
 import PyTough.Proofs.ListingHistory
+import PyTough.Proofs.ListingFile
 
 namespace Props.C06
 open Py Model Model.Listing Proofs.History
@@ -59,5 +60,23 @@ theorem reversed_key_negated (readVals : Str → Except Exc (List FVal)) (colOf 
     | some vi =>
       simp only
       cases vals[vi]? <;> rfl
+
+/-! ### afterwards the reader still shows the same current time and tables as before the call -/
+
+/-- For the whole-file model: a history() call that returns (any selection, with or without short output, from any
+    current index, on any file) leaves every attribute of the reader as it was — index, time, step, every table —
+    except the file position, which every later action sets before it reads.  (history() is a computation that can
+    only move the file position and the index, and it restores the index.) -/
+theorem history_leaves_reader_unchanged (items : List Item) (short : Bool) (s s' : Rd)
+    (r : Option (List (Bool × List FVal))) (h : (history items short).run s = .ok (r, s')) :
+    s' = { s with pos := s'.pos } :=
+  Proofs.File.history_frame items short s s' r h
+
+/-- in particular index, time, step and tables -/
+theorem history_preserves_view (items : List Item) (short : Bool) (s s' : Rd)
+    (r : Option (List (Bool × List FVal))) (h : (history items short).run s = .ok (r, s')) :
+    s'.index = s.index ∧ s'.time = s.time ∧ s'.step = s.step ∧ s'.tables = s.tables := by
+  have := history_leaves_reader_unchanged items short s s' r h
+  rw [this]; exact ⟨rfl, rfl, rfl, rfl⟩
 
 end Props.C06
